@@ -426,6 +426,12 @@ class FromArgs(Generic[T]):
         return bool(self._i_to_arg)
 
     def to_tuple(self) -> Tuple[T, ...]:
+        # The indices have already been written into the instructions, so they have
+        # to be the positions in the tuple
+        if set(self._i_to_arg) != set(range(len(self._i_to_arg))):
+            raise ValueError(
+                f"Index overrides leave gaps in the table: {sorted(self._i_to_arg)}"
+            )
         return tuple(v for _, v, in sorted(self._i_to_arg.items()))
 
     def add(self, arg: T, index_override: Optional[int]) -> int:
